@@ -348,6 +348,43 @@ class Analyzer:
             if name and fc is not None:
                 R["normal"] = self._build_into(name, fc, states, env, probs, R)
                 return self._dd(R)
+            if init is not None and pat.get("k") == "p_tuple" and init.get("k") in ("match", "if") and all(e_.get("k") in ("p_ident", "p_wild") for e_ in pat["elems"]):
+                # `let (key, v) = match x { A => (Some(..), a), B => (None, b) }`: each arm's path remembers what `key` is
+                branches = []
+                if init.get("k") == "match":
+                    r0 = self.walk(init["e"], states, env, probs)
+                    for a in init["arms"]:
+                        branches.append((self._shadow(r0["normal"], a["pat"]), a["body"]))
+                else:
+                    c_ = init["cond"]
+                    r0 = self.walk(c_["e"] if c_.get("k") == "let" else c_, states, env, probs)
+                    branches.append((r0["normal"], init["then"]))
+                    if init.get("else") is not None:
+                        branches.append((r0["normal"], init["else"]))
+                out = []
+                for ins, body in branches:
+                    rb = self.walk(body, ins, env, probs)
+                    for st in ("return", "break", "continue"):
+                        R[st] += rb[st]
+                    tail = body
+                    while tail is not None and tail.get("k") == "block":
+                        tail = tail["stmts"][-1].get("e") if tail["stmts"] and tail["stmts"][-1].get("k") == "expr" else None
+                    facts = []
+                    if tail is not None and tail.get("k") == "tuple" and len(tail["elems"]) == len(pat["elems"]):
+                        for pe, te in zip(pat["elems"], tail["elems"]):
+                            if pe.get("k") != "p_ident":
+                                continue
+                            ts = sir.expr_str(sir.strip_ref(te))
+                            if ts.startswith("Some("):
+                                facts += [("%s.is_some()" % pe["name"], True), ("%s.is_none()" % pe["name"], False)]
+                            elif ts == "None":
+                                facts += [("%s.is_some()" % pe["name"], False), ("%s.is_none()" % pe["name"], True)]
+                    for s_ in rb["normal"]:
+                        m_ = dict(s_.memo)
+                        m_.update(dict(facts))
+                        out.append(s_.copy(memo=tuple(sorted(m_.items()))))
+                R["normal"] = out
+                return self._dd(R)
             cur = states
             if init is not None:
                 r = self.walk(init, cur, env, probs)
@@ -386,7 +423,7 @@ class Analyzer:
                     c1 = c1["e"]
                 if c1.get("k") == "path" and len(c1["segs"]) == 1:
                     ck, neg = c1["segs"][0], True
-            track = ck in env["conds"] or ck in env.get("flags", ())
+            track = ck in env["conds"] or ck in env.get("flags", ()) or any(ck in dict(s_.memo) for s_ in r0["normal"])
             t_in, e_in = [], []
             for s in r0["normal"]:
                 m = dict(s.memo)
